@@ -1084,11 +1084,11 @@ impl<'a, S: Storage> BTree<'a, S> {
         if interior.free_space() as usize >= space_needed {
             let old_right = interior.right_child();
 
-            if separator
-                >= interior
-                    .key_at(interior.cell_count() as usize - 1)
-                    .unwrap_or(separator)
-            {
+            // An interior page can be without separators (split_interior of a two-separator list leaves
+            // one side with only its right child): then the new separator simply goes in front of the
+            // right child.  `cell_count() as usize - 1` would underflow (a panic with overflow checks).
+            let count = interior.cell_count() as usize;
+            if count == 0 || separator >= interior.key_at(count - 1).unwrap_or(separator) {
                 interior.insert_separator(separator, old_right)?;
                 interior.set_right_child(right_child)?;
             } else {
